@@ -39,7 +39,7 @@ def probe_spec(p, fill=0):
         'n_loc': 2, 'n_tloc': 2,     # index tables have the same width in every probe
         'ind_high': p.get('ind_high', False),
         'raw': False, 'tsv': p.get('tsv', {}), 'fill': fill + p.get('fill', 0),
-        'sample_rate': 100.0,
+        'sample_rate': p.get('sample_rate', 100.0),
         'template_dtype': p.get('template_dtype', 'float32'),
     }
     return spec
